@@ -56,8 +56,8 @@ def hexl(h):
 
 
 def gal_case(c):
-    dev = "{| d_mlen := %d%%nat; d_pad := %d; d_q := [%s]; d_per := [%s]; d_reqs := []; d_counter := 1 |}" % (
-        c["mlen"], c["pad"], "; ".join(hexl(x) for x in c["stale"]),
+    dev = "{| d_mlen := %d%%nat; d_wlen := %d%%nat; d_pad := %d; d_q := [%s]; d_per := [%s]; d_reqs := []; d_counter := 1 |}" % (
+        c["mlen"], c.get("wmlen", c["mlen"]), c["pad"], "; ".join(hexl(x) for x in c["stale"]),
         "; ".join("[" + "; ".join(hexl(x) for x in rs) + "]" for rs in c["per_req"]))
     op = c["op"]
     if op == 0:
